@@ -67,7 +67,7 @@ theorem fill_total (r : Rule) (p : Inst) (n : Nat) (hr : WfRule r) (hp : WfInst 
   · rfl
 
 /-- what the yearly, monthly, weekly and daily filler write has the kind of the seed: `KindOk` is handed on to the
-next refill's seed -/
+next refill's seed (sub-daily fillers: RrAsm12 `fill_kind_all`) -/
 theorem fill_kind (r : Rule) (p : Inst) (n : Nat) (l : List Inst) (hr : WfRule r) (hp : WfInst p) (hk : KindOk r p)
     (hf : r.freq ≤ 4) (h : fill r p n = some l) : ∀ x ∈ l, KindOk r x := by
   intro x hx
@@ -81,17 +81,5 @@ theorem fill_kind (r : Rule) (p : Inst) (n : Nat) (l : List Inst) (hr : WfRule r
   · omega
   · omega
   · cases h; cases hx
-
-/-- the proviso the stream carries from seed to seed: `KindOk` where a filler needs it (FREQ=YEARLY … DAILY) -/
-def SeedOk (r : Rule) (p : Inst) : Prop := r.freq ≤ 4 → KindOk r p
-
-theorem KindOk.seedOk {r : Rule} {p : Inst} (h : KindOk r p) : SeedOk r p := fun _ => h
-
-theorem fill_contract_seed (r : Rule) (p : Inst) (n : Nat) (l : List Inst) (hr : WfRule r) (hp : WfInst p)
-    (hk : SeedOk r p) (hs : ShiftOk r) (hn : n ≤ 64) (h : fill r p n = some l) :
-    FillOk r p n l ∧ ∀ x ∈ l, SeedOk r x := by
-  by_cases hf : r.freq ≤ 4
-  · exact ⟨fill_contract r p n l hr hp (hk hf) hs hn h, fun x hx _ => fill_kind r p n l hr hp (hk hf) hf h x hx⟩
-  · exact ⟨fill_contract_subdaily r p n l hr hp (by omega) hn h, fun x _ hf' => absurd hf' hf⟩
 
 end Echse.Lemmas.RrAsm
